@@ -20,20 +20,23 @@ deriving Repr, DecidableEq
 
 inductive Node where
   | mk (consts : List (String × Node)) (param : Option (String × Node)) (wild : Option Node)
-       (hasVal : Bool) (isHost : Bool)
+       (hasVal : Bool) (isHost : Bool) (amb : Bool)
 deriving Inhabited
 
 namespace Node
-def consts : Node → List (String × Node) | mk c _ _ _ _ => c
-def param : Node → Option (String × Node) | mk _ p _ _ _ => p
-def wild : Node → Option Node | mk _ _ w _ _ => w
-def hasVal : Node → Bool | mk _ _ _ v _ => v
-def isHost : Node → Bool | mk _ _ _ _ h => h
-def leaf (host : Bool) : Node := mk [] none none false host
-def setConsts (n : Node) (c : List (String × Node)) : Node := mk c n.param n.wild n.hasVal n.isHost
-def setParam (n : Node) (p : Option (String × Node)) : Node := mk n.consts p n.wild n.hasVal n.isHost
-def setWild (n : Node) (w : Option Node) : Node := mk n.consts n.param w n.hasVal n.isHost
-def setVal (n : Node) : Node := mk n.consts n.param n.wild true n.isHost
+def consts : Node → List (String × Node) | mk c _ _ _ _ _ => c
+def param : Node → Option (String × Node) | mk _ p _ _ _ _ => p
+def wild : Node → Option Node | mk _ _ w _ _ _ => w
+def hasVal : Node → Bool | mk _ _ _ v _ _ => v
+def isHost : Node → Bool | mk _ _ _ _ h _ => h
+/-- diagnostic only: `Value` of this node was copied from `nodes[0]` of a Go-map-ordered slice whose
+    candidates disagree, i.e. the real value depends on map iteration order -/
+def amb : Node → Bool | mk _ _ _ _ _ a => a
+def leaf (host : Bool) : Node := mk [] none none false host false
+def setConsts (n : Node) (c : List (String × Node)) : Node := mk c n.param n.wild n.hasVal n.isHost n.amb
+def setParam (n : Node) (p : Option (String × Node)) : Node := mk n.consts p n.wild n.hasVal n.isHost n.amb
+def setWild (n : Node) (w : Option Node) : Node := mk n.consts n.param w n.hasVal n.isHost n.amb
+def setVal (n : Node) : Node := mk n.consts n.param n.wild true n.isHost false
 end Node
 
 def isTrimCh (c : Char) : Bool := c = '.' || c = '/'
@@ -76,14 +79,15 @@ def groupConsts (nodes : List Node) : List (String × List Node) :=
 
 mutual
 /-- the body of `convergeNodesPaths` after the `len(nodes) <= 1` early returns -/
-partial def mergeNodes (nodes : List Node) (idx : Nat) : Node :=
+partial def mergeNodes (nodes : List Node) (idx : Nat) (cands : List Node := nodes) : Node :=
   let sample := match nodes with | n :: _ => n.hasVal | [] => false
+  let amb := cands.any (fun c => c.amb || c.hasVal != sample)
   let params := nodes.filterMap (·.param)
   let wild := match nodes.getLast? with | some n => n.wild | none => none
   let cc := (groupConsts nodes).map fun g => (g.1, convergeNodes g.2 idx)
   let pc := if params.isEmpty then none
             else some (assumedName (idx + 1), convergeNodes (params.map (·.2)) (idx + 1))
-  Node.mk cc pc wild sample false
+  Node.mk cc pc wild sample false amb
 
 /-- `convergeNodesPaths` on non-nil nodes -/
 partial def convergeNodes (nodes : List Node) (idx : Nat) : Node :=
@@ -126,7 +130,7 @@ partial def insParts (thr : Nat) (declared : Bool) (n : Node) (parts : List Part
           let ppc' := ppc + 1
           let nodes := pathOnly.map (·.2) ++ (match n.param with | some pc => [pc.2] | none => [])
           -- raw slice length is pathOnly.length + 1 ≥ 2 for thr ≥ 1, so Go never takes the early return
-          let merged := if pathOnly.length + 1 ≤ 1 then convergeNodes nodes ppc' else mergeNodes nodes ppc'
+          let merged := if pathOnly.length + 1 ≤ 1 then convergeNodes nodes ppc' else mergeNodes nodes ppc' (if pathOnly.isEmpty then nodes else pathOnly.map (·.2))
           let (c, _, er) := insParts thr declared merged rest ppc'
           ((n.setConsts hostOnly).setParam (some (assumedName ppc', c)), true, er)
         else if !declared && n.param.isSome then
@@ -142,23 +146,26 @@ partial def insParts (thr : Nat) (declared : Bool) (n : Node) (parts : List Part
 structure Tree where
   thr : Nat
   root : Node
+  /-- diagnostic: some lookup consulted a map-order-dependent `Value` (the real outcome is then not determined) -/
+  nondet : Bool := false
 deriving Inhabited
 
-def Tree.new (thr : Nat) : Tree := ⟨thr, Node.leaf false⟩
+def Tree.new (thr : Nat) : Tree := ⟨thr, Node.leaf false, false⟩
 
 /-- `InsertWithConvergenceIndication` / `InsertDeclaredURL`; returns (tree, convergence, error). -/
 def Tree.insert (t : Tree) (declared : Bool) (u : String) : Tree × Bool × Bool :=
   if invalidURL u then (t, false, true)
   else
     let (r, cv, er) := insParts t.thr declared t.root (splitURL u) 0
-    (⟨t.thr, r⟩, cv, er)
+    ({ t with root := r }, cv, er)
 
 def delim (p : Part) : String := if p.host then "." else "/"
 
 /-- `lookupNode` + `Lookup`: (Match, NormalizedURL). -/
 def lookupLoop : Node → List Part → Bool → String → Bool × String
   | n, [], fw, path =>
-    if n.hasVal then (true, trimURL path)
+    if n.amb && !n.wild.isSome && !fw then (n.hasVal, "\u0001" ++ trimURL path)   -- marker: ambiguous value consulted
+    else if n.hasVal then (true, trimURL path)
     else if n.wild.isSome then (true, trimURL path)
     else if fw then (true, trimURL path)
     else (false, trimURL path)
@@ -178,13 +185,18 @@ def lookupLoop : Node → List Part → Bool → String → Bool × String
         else if fw then (true, trimURL (path ++ delim p ++ "*"))
         else (false, trimURL path)
 
-def Tree.lookup (t : Tree) (u : String) : Bool × String := lookupLoop t.root (splitURL u) false ""
+def Tree.lookupRaw (t : Tree) (u : String) : Bool × String := lookupLoop t.root (splitURL u) false ""
+
+def Tree.lookup (t : Tree) (u : String) : Bool × String :=
+  let (m, s) := t.lookupRaw u
+  (m, if s.startsWith "\u0001" then (s.drop 1).toString else s)
 
 /-- `common.NormalizeURL`: insert (error ignored), look up, fall back to the URL itself. -/
 def Tree.normalizeURL (t : Tree) (u : String) : String × Tree :=
   let (t', _, _) := t.insert false u
   let (m, nu) := t'.lookup u
-  (if m then nu else u, t')
+  let consulted := (t'.lookupRaw u).2.startsWith "\u0001"
+  (if m then nu else u, { t' with nondet := t'.nondet || consulted })
 
 /-- `common.NormalizeTree`: (tree, convergenceOccurred, error); stops at the first error. -/
 def Tree.normalizeTree : Tree → List String → Tree × Bool × Bool
